@@ -115,3 +115,25 @@ func logLevel() string {
 	}
 	return "ERROR"
 }
+
+// startMosnCfg starts a real MOSN from an already loaded configuration object.
+func startMosnCfg(cfg *v2.MOSNConfig) error {
+	RegisterCodecs()
+	if os.Getenv("VERIF_MOSN_LOG") == "" {
+		mlog.StartLogger.SetLogLevel(mlog.ERROR)
+	}
+	cluster.VerifReseedRR(time.Now().UnixNano())
+	m := mosn.NewMosn()
+	if err := m.Init(cfg); err != nil {
+		return err
+	}
+	m.Start()
+	if v := os.Getenv("VERIF_GOMAXPROCS"); v != "" {
+		var n int
+		fmt.Sscanf(v, "%d", &n)
+		if n > 0 {
+			runtime.GOMAXPROCS(n)
+		}
+	}
+	return nil
+}
